@@ -135,6 +135,8 @@ func mergeRuns(dst, src *HarnessRun) {
 	dst.UnknownBranches += src.UnknownBranches
 	dst.IfConverted += src.IfConverted
 	dst.AllocCuts += src.AllocCuts
+	dst.CacheHits += src.CacheHits
+	dst.Sliced += src.Sliced
 	dst.Violations = append(dst.Violations, src.Violations...)
 	for k, v := range src.ViolCount {
 		dst.ViolCount[k] += v
@@ -268,8 +270,8 @@ func runAll(l *loaded, hs []harnessInfo, jobs int) ([]*HarnessRun, []string, sol
 		tot.unsat += q.unsat
 		tot.unknown += q.unknown
 		tot.err += q.err
-		stats[i] = fmt.Sprintf("%s: paths=%d steps=%d obligations=%d discharged=%d violations=%d queries(sat=%d unsat=%d unknown=%d) solver_cpu=%.1fs",
-			h.Name, r.Paths, r.Steps, r.Obligations, r.Discharged, len(r.Violations), q.sat, q.unsat, q.unknown, q.wall)
+		stats[i] = fmt.Sprintf("%s: paths=%d steps=%d obligations=%d discharged=%d violations=%d queries(sat=%d unsat=%d unknown=%d cached=%d) solver_cpu=%.1fs",
+			h.Name, r.Paths, r.Steps, r.Obligations, r.Discharged, len(r.Violations), q.sat, q.unsat, q.unknown, r.CacheHits, q.wall)
 		fmt.Fprintln(os.Stderr, stats[i])
 	}
 	return results, stats, tot
